@@ -93,11 +93,10 @@ Decomp(p, g) ==
 
 MonInit(p) ==
   [p |-> p,
-   pend |-> <<>>,     \* presses not yet accounted for, in arrival order: [c, xr, ly, sk, age, hid, dup]
+   pend |-> <<>>,     \* presses not yet accounted for, in arrival order: [c, xr, ly, sk, age, hid]
                       \*   xr = keys released (input) since this press arrived; ly = layer it was made on (-1 unknown);
-                      \*   sk = a later press was delivered before it; hid = chord that may have consumed it unseen;
-                      \*   dup = it was pending when a chord of its key fired (the site of a known dropped press)
-   acts |-> <<>>,     \* chord actions currently held: [ci, rem, all, chk, due, tag, useen, frl]
+                      \*   sk = a later press was delivered before it; hid = chord that may have consumed it unseen
+   acts |-> <<>>,     \* chord actions currently held: [ci, rem, all, chk, due, useen, frl]
    gst |-> "none",    \* sharp group: "none" | "open"
    g |-> <<>>,        \* its presses in arrival order
    el |-> 0,          \* ticks since its first press arrived
@@ -107,15 +106,11 @@ MonInit(p) ==
    expLeft |-> 0 - 1, \* ticks left for the first of them (-1: no claim)
    expDef |-> FALSE,  \* the expectation is the whole set's own action
    last |-> [ci |-> 0, viaRel |-> FALSE, late |-> FALSE, age |-> 0],   \* (= NoLast) the latest chord activation (to classify a repeat)
-   sp |-> IF p.ver = 1 THEN 0 ELSE MaxT(p) + p.minidle + 2,     \* v2: ticks since the last press input (capped)
    phys |-> {},       \* keys physically down (from the inputs)
-   inq |-> 0,         \* (reserved: input backlog allowance for the release deadline; not counted - the random
-                      \*  schedules keep bursts within one tick short instead)
    lay |-> 0, lheld |-> FALSE,
    gapIn |-> 0, lastIdle |-> TRUE, cbRun |-> 2, quiet |-> p.red + 1, err |-> ""]
 NoLast == [ci |-> 0, viaRel |-> FALSE, late |-> FALSE, age |-> 0]
 
-SpCap(p) == IF p.ver = 1 THEN 0 ELSE MaxT(p) + p.minidle + 2
 Settled(m) ==
   /\ m.lastIdle /\ m.quiet > m.p.red /\ m.pend = <<>> /\ m.gapIn = 0 /\ m.exp = <<>> /\ m.gst = "none"
   \* v2: chords were accepted (no cool-down) for two ticks, so no stale skip counter of chord.rs is left either
@@ -134,12 +129,11 @@ MonIn(m, r) ==
     IN
     IF p.lkey # 0 /\ c = p.lkey
     THEN \* the active layer is in doubt until kanata has settled again
-         [m0 EXCEPT !.lay = 0 - 1, !.lheld = (r.e = "d"), !.sp = IF r.e = "d" THEN 0 ELSE @,
+         [m0 EXCEPT !.lay = 0 - 1, !.lheld = (r.e = "d"),
                     !.pend = [i \in DOMAIN @ |-> [@[i] EXCEPT !.ly = 0 - 1]],
                     !.gst = "none", !.g = <<>>]
     ELSE IF r.e = "d"
-    THEN LET m1 == [m0 EXCEPT !.pend = Append(@, [c |-> c, xr |-> {}, ly |-> m.lay, sk |-> FALSE, age |-> 0, hid |-> 0, dup |-> FALSE]),
-                              !.sp = 0]
+    THEN LET m1 == [m0 EXCEPT !.pend = Append(@, [c |-> c, xr |-> {}, ly |-> m.lay, sk |-> FALSE, age |-> 0, hid |-> 0])]
          IN IF m.gst = "none"
             THEN IF Settled(m) /\ IsPart(p, c) /\ m.lay >= 0 /\ (p.ver = 1 \/ CanExtend(p, {c}, m.lay))
                  THEN [m1 EXCEPT !.gst = "open", !.g = <<c>>, !.el = 0, !.term = "none", !.arr = TRUE]
@@ -157,7 +151,7 @@ MonIn(m, r) ==
          LET m1 == [m0 EXCEPT !.pend = [i \in DOMAIN @ |-> [@[i] EXCEPT !.xr = @ \cup {c}]],
                               !.acts = [j \in DOMAIN @ |->
                                           IF c \in @[j].rem
-                                          THEN [@[j] EXCEPT !.rem = @ \ {c}, !.tag = @ \/ (p.ver = 2 /\ m.sp < SpCap(p))]
+                                          THEN [@[j] EXCEPT !.rem = @ \ {c}]
                                           ELSE @[j]]]
          IN IF m.gst = "open" /\ m.term = "none" /\ (c \in G \/ (p.ver = 1 /\ IsPart(p, c)))
             THEN [m1 EXCEPT !.term = "rel"] ELSE m1
@@ -167,10 +161,8 @@ ExpOk(m, o, u) == m.exp = <<>> \/ (Head(m.exp).o = o /\ Head(m.exp).u = u)
 PopExp(m) == IF m.exp = <<>> THEN m ELSE [m EXCEPT !.exp = Tail(@), !.expLeft = 0 - 1]
 
 \* the press of key k an observed activation consumes: the oldest one that was not possibly consumed unseen
-\* (nor possibly dropped with an earlier activation of a chord of the key: `dup`)
-PickIdx(pend, k) == LET i0 == FirstIdx(pend, LAMBDA e : e.c = k /\ e.hid = 0 /\ ~e.dup)
-                        i == FirstIdx(pend, LAMBDA e : e.c = k /\ e.hid = 0) IN
-                    IF i0 # 0 THEN i0 ELSE IF i # 0 THEN i ELSE FirstIdx(pend, LAMBDA e : e.c = k)
+PickIdx(pend, k) == LET i == FirstIdx(pend, LAMBDA e : e.c = k /\ e.hid = 0) IN
+                    IF i # 0 THEN i ELSE FirstIdx(pend, LAMBDA e : e.c = k)
 
 ActivateChord(m, ci) ==
   LET p == m.p
@@ -187,9 +179,7 @@ ActivateChord(m, ci) ==
       late == \E a \in ages : a >= ch.T
       fromExp == m.exp # <<>>
       keep == SelectSeq([i \in DOMAIN m.pend |-> [e |-> m.pend[i], i |-> i]], LAMBDA x : x.i \notin I)
-      \* a further press of a participant that was already pending when the chord fired (only used to name the site
-      \* if that press is then swallowed)
-      pend1 == [i \in DOMAIN keep |-> IF keep[i].e.c \in S /\ p.ver = 2 THEN [keep[i].e EXCEPT !.dup = TRUE] ELSE keep[i].e]
+      pend1 == [i \in DOMAIN keep |-> keep[i].e]
       rem == S \ xr0
   IN IF missing
      THEN IF m.last.ci = ci /\ m.last.viaRel
@@ -204,7 +194,7 @@ ActivateChord(m, ci) ==
      ELSE LET m1 == PopExp([m EXCEPT !.pend = pend1, !.last = [ci |-> ci, viaRel |-> viaRel, late |-> late, age |-> 0]]) IN
           IF ch.o = 0 THEN m1
           ELSE [m1 EXCEPT !.acts = Append(@, [ci |-> ci, rem |-> rem, all |-> S,
-                                             chk |-> (p.ver = 2 \/ (fromExp /\ m.expDef)), due |-> 0, tag |-> FALSE,
+                                             chk |-> (p.ver = 2 \/ (fromExp /\ m.expDef)), due |-> 0,
                                              useen |-> FALSE, frl |-> (m.pend[oldest].xr \ S) # {}])]
 
 \* a chord whose action is a key and a unicode character: the key shows how long the action is held, the character
@@ -233,7 +223,7 @@ UniOfKeyChord(m, ci) ==
 
 Individual(m, kc, o) ==
   \* the layer delivers in arrival order: the oldest pending press of the key.  If that press was marked as possibly
-  \* consumed unseen (hid) or possibly dropped (dup), the doubt passes to the next press of the same key.
+  \* consumed unseen (hid), the doubt passes to the next press of the same key.
   LET i == FirstIdx(m.pend, LAMBDA e : e.c = kc) IN
   IF i = 0
   THEN Fail(m, "C09 H1: individual output of a key without a fresh press (a participant of a fired chord, or delivered twice)")
@@ -245,10 +235,9 @@ Individual(m, kc, o) ==
            after == SubSeq(m.pend, i + 1, Len(m.pend))
            j == FirstIdx(after, LAMBDA e : e.c = kc)
            after1 == IF j = 0 THEN after
-                     ELSE [after EXCEPT ![j].hid = IF @ = 0 THEN m.pend[i].hid ELSE @, ![j].dup = @ \/ m.pend[i].dup]
-       IN \* (presses that a hidden re-activation may have consumed, or that may have been dropped, are left out of
-          \*  the order claim)
-          PopExp([m EXCEPT !.pend = [k \in DOMAIN before |-> IF before[k].hid = 0 /\ ~before[k].dup THEN [before[k] EXCEPT !.sk = TRUE] ELSE before[k]]
+                     ELSE [after EXCEPT ![j].hid = IF @ = 0 THEN m.pend[i].hid ELSE @]
+       IN \* (presses that a hidden re-activation may have consumed are left out of the order claim)
+          PopExp([m EXCEPT !.pend = [k \in DOMAIN before |-> IF before[k].hid = 0 THEN [before[k] EXCEPT !.sk = TRUE] ELSE before[k]]
                                     \o after1])
 
 ReleaseChord(m, ci) ==
@@ -315,13 +304,9 @@ MonTick(m, out, idle, cb) ==
         hidIdx == IF p.ver = 1 THEN [i \in {} |-> 0]
                   ELSE [i \in UNION {hidFor(m3a, m3a.acts[j]) : j \in DOMAIN m3a.acts} |->
                           LET J == {j \in DOMAIN m3a.acts : i \in hidFor(m3a, m3a.acts[j])} IN m3a.acts[CHOOSE j \in J : TRUE].ci]
-        hidKeys == UNION {m3a.acts[j].all : j \in {j2 \in DOMAIN m3a.acts : hidFor(m3a, m3a.acts[j2]) # {}}}
         m3 == IF m3a.err # "" \/ p.ver = 1 THEN m3a
               ELSE [m3a EXCEPT !.pend = [i \in DOMAIN @ |->
-                                           IF i \in DOMAIN hidIdx THEN [@[i] EXCEPT !.hid = hidIdx[i]]
-                                           \* a further press of a key of that chord, pending at the same time, would be
-                                           \* dropped by such an activation (the known site `dup`)
-                                           ELSE IF @[i].c \in hidKeys THEN [@[i] EXCEPT !.dup = TRUE] ELSE @[i]]]
+                                           IF i \in DOMAIN hidIdx THEN [@[i] EXCEPT !.hid = hidIdx[i]] ELSE @[i]]]
         \* ---- 3. deadlines
         settledNow == idle /\ m.lastIdle /\ m.gapIn = 0
         \* (a press of an undefined single-key chord is consumed silently, so `rem` may be attributed to an older press
@@ -331,34 +316,27 @@ MonTick(m, out, idle, cb) ==
         \* the deadline counts consecutive silent ticks: while kanata still works through queued events (one per tick,
         \* with rapid-event pauses) outputs keep coming and the release is merely queued behind them
         acts1 == [i \in DOMAIN m3.acts |-> [m3.acts[i] EXCEPT !.due = IF relCond(m3.acts[i]) /\ out = <<>>
-                                                                       THEN OMin(@ + 1, p.slack + 21) ELSE 0]]
-        stuck == {i \in DOMAIN acts1 : acts1[i].due > p.slack + 2 * m.inq}
+                                                                       THEN OMin(@ + 1, p.slack + 1) ELSE 0]]
+        stuck == {i \in DOMAIN acts1 : acts1[i].due > p.slack}
         \* presses left when kanata has settled, per key: every `hid` mark excuses one press of the key silently (a chord
-        \* re-activation under a held output key is invisible), every `dup` mark names the known site of a dropped press
+        \* re-activation under a held output key is invisible)
         cnt(k) == Cardinality({i \in DOMAIN m3.pend : m3.pend[i].c = k})
         hidc(k) == Cardinality({i \in DOMAIN m3.pend : m3.pend[i].c = k /\ m3.pend[i].hid # 0})
-        dupc(k) == Cardinality({i \in DOMAIN m3.pend : m3.pend[i].c = k /\ m3.pend[i].dup})
         left == {k \in {m3.pend[i].c : i \in DOMAIN m3.pend} : IndOut(p, k) # 0 /\ cnt(k) > hidc(k)}
         m4 == IF m3.err # "" THEN m3
               ELSE IF m3.expLeft = 0
               THEN Fail(m3, "C09 H1: the action for the pressed key set was not performed on the tick its window closed")
               ELSE IF stuck # {}
-              THEN IF \E i \in stuck : acts1[i].tag
-                   THEN Fail(m3, "C09 H3: chord action still held after all its participants were released [released shortly after another key press: chords-v2-min-idle]")
-                   ELSE Fail(m3, "C09 H3: chord action still held after its release condition")
+              THEN Fail(m3, "C09 H3: chord action still held after its release condition")
               ELSE IF settledNow /\ left # {}
-              THEN IF \A k \in left : cnt(k) - hidc(k) <= dupc(k)
-                   THEN Fail(m3, "C09 H4: a pressed key was swallowed [a further press of a chord key, queued when the chord fired, was dropped with the consumed presses]")
-                   ELSE Fail(m3, "C09 H4: a pressed key was swallowed (neither a chord nor its own action accounts for it)")
+              THEN Fail(m3, "C09 H4: a pressed key was swallowed (neither a chord nor its own action accounts for it)")
               ELSE [m3 EXCEPT !.acts = acts1,
                               !.expLeft = IF @ > 0 THEN @ - 1 ELSE @,
                               !.pend = IF settledNow THEN <<>> ELSE @]
     IN IF m4.err # "" THEN m4
        ELSE [m4 EXCEPT !.lay = IF settledNow THEN (IF m.lheld THEN 1 ELSE 0) ELSE @,
-                       !.sp = OMin(@ + 1, SpCap(p)),
                        !.last = IF settledNow THEN NoLast ELSE [@ EXCEPT !.age = OMin(@ + 1, 2)],
                        !.expDef = IF m4.exp = <<>> THEN FALSE ELSE @,
-                       !.inq = IF idle THEN 0 ELSE @,
                        !.gapIn = 0, !.lastIdle = idle, !.cbRun = IF p.ver = 1 \/ cb THEN OMin(@ + 1, 2) ELSE 0,
                        !.quiet = IF out = <<>> THEN OMin(m4.quiet + 1, p.red + 1) ELSE 0]
 
